@@ -2989,7 +2989,7 @@ func (vm *Thread) popSkipOne() {
 func (vm *Thread) popNSkipOne(n int) {
 	*vm.spAdd(-n - 1) = *vm.spAdd(-1)
 	for i := vm.spOffset() - 1; i >= vm.spOffset()-n; i-- {
-		*vm.spAdd(i) = value.Undefined
+		vm.stack[i] = value.Undefined
 	}
 	vm.spDecrementBy(uintptr(n))
 }
